@@ -13,7 +13,7 @@ import types
 from typing import Any, List, Optional
 
 ROOTS = ["coro", "coro", "coro", "agen", "gen", "agen_thrown"]
-CORO_LINKS = ["await_coro", "await_gencoro", "await_wrapper", "await_gen", "agen_anext", "agen_asend", "agen_asend_agen", "agen_athrow",
+CORO_LINKS = ["await_coro", "await_gencoro", "await_wrapper", "await_gen", "agen_anext", "agen_asend", "agen_asend_agen", "with_del_self", "agen_athrow",
               "agen_aclose", "async_for"]
 GEN_LINKS = ["yield_from"]
 ENDS = ["trap", "future", "future_falsy", "future_len0"]
@@ -213,6 +213,22 @@ def build(spec: dict) -> Chain:
                 await a.asend(None)
                 await a.asend(s)
                 await tail()
+            return ch.reg(f())
+        if k == "with_del_self":
+            # the chain passes through the __aexit__ of an async with whose exit method has dropped its own `self`: the name of
+            # the exiting manager cannot be read back from that frame (a contained error with contexts on; same frames)
+            class Drops:
+                async def __aenter__(s):
+                    return s
+
+                async def __aexit__(s, *a):
+                    del s
+                    await aw(i + 1)
+                    await tail()
+
+            async def f():
+                async with Drops():
+                    pass
             return ch.reg(f())
         if k == "agen_athrow":
             async def ag():
